@@ -64,13 +64,8 @@ def action_groups(ctx, f):
 def vm_groups(ctx):
     f = ctx.prog.fn('yr_execute_code', 'libyara/exec.c')
     ctx.require(f is not None, 'anchor yr_execute_code not found')
-    best = None
-    for sw in cu.find_switches(f):
-        c = cu.switch_cond(f, sw)
-        if c is not None and c['k'] == 'ref' and c['name'] == 'opcode':
-            g = cu.switch_groups(f, sw)
-            if best is None or len(g) > len(best):
-                best = g
+    from ..vmroles import vm_roles
+    best = vm_roles(ctx.prog, f).groups
     ctx.require(best is not None and (len(best) > 60 or ctx.fixture),
                 'VM dispatch switch (opcode) not found in yr_execute_code')
     by_val = {}
@@ -110,14 +105,50 @@ def _operand_role(fn, n, local_roles):
     return 'R' if idx == 0 else 'L'
 
 
-def _vm_role(fn, n):
+SIGN_SENSITIVE = ('>>', '/', '%')
+
+
+def _op_token(fn, binnode):
+    """the operator, marked when it is applied to an operand explicitly converted to an
+    unsigned type and the operator's result depends on signedness (an arithmetic shift
+    right, a division and a remainder of negative values differ from the unsigned ones)"""
+    op = binnode['op']
+    if op not in SIGN_SENSITIVE:
+        return op
+    for k in (0, 1):
+        x = fn.kid(binnode, k)
+        while x is not None and x['k'] == 'cast':
+            t = (x.get('t') or '')
+            if 'unsigned' in t or t.startswith(('uint', 'size_t')):
+                return op + ':unsigned'
+            x = fn.kid(x, 0)
+    return op
+
+
+def _pop_roles(fn, nodes):
+    """nodes: the handler's nodes in statement order.  {register: 'L'|'R'} for one VM handler: operands are pushed left to right, so the
+    register popped first holds the right operand and the one popped second the left
+    (a single pop is the only operand, 'L')"""
+    order = []
+    for n in (x for x in nodes if x['k'] == 'bin' and x['op'] == '=' and 'pop' in fn.macros(x)):
+        l = cu.strip_casts(fn, fn.kid(n, 0))
+        if l is not None and l['k'] == 'ref' and l['name'] not in order:
+            order.append(l['name'])
+    if len(order) == 1:
+        return {order[0]: 'L'}
+    if len(order) >= 2:
+        return {order[0]: 'R', order[1]: 'L'}
+    return {}
+
+
+def _vm_role0(fn, n, roles=None):
     n = cu.strip_casts(fn, n)
     if n is None or n['k'] != 'member' or n['fld'] != 'i':
         return None
     b = fn.kid(n, 0)
     if b is None or b['k'] != 'ref':
         return None
-    return {'r1': 'L', 'r2': 'R'}.get(b['name'])
+    return (roles if roles is not None else {'r1': 'L', 'r2': 'R'}).get(b['name'])
 
 
 REL_NORM = {'<': ('lt', 0), '>=': ('lt', 0), '>': ('lt', 1), '<=': ('lt', 1),
@@ -201,10 +232,26 @@ def r12_1_and_2(ctx):
             return None, None
         labels, stmts = vm[opcode]
         ops = set()
+        roles = _pop_roles(vmf, [x for st in stmts for x in vmf.walk(st)])
+
+        def _vm_role(fn, n, roles=roles):
+            return _vm_role0(fn, n, roles)
         for n in cu.assignments(vmf, cu.group_nodes(vmf, stmts)):
-            if n['op'] != '=':
-                continue
             lhs = vmf.kid(n, 0)
+            if n['op'] != '=':
+                # `a OP= b` is `a = a OP b`
+                if n['op'].endswith('=') and n['op'][:-1] in ARITH_BIN:
+                    ra, rb = _vm_role(vmf, lhs), _vm_role(vmf, vmf.kid(n, 1))
+                    tok = n['op'][:-1]
+                    if tok in SIGN_SENSITIVE:
+                        fake = dict(n)
+                        fake['op'] = tok
+                        tok = _op_token(vmf, fake)
+                    if ra == 'L' and rb == 'R':
+                        ops.add(tok)
+                    elif ra and rb:
+                        ops.add('swapped:' + n['op'][:-1])
+                continue
             if _vm_role(vmf, lhs) is None:
                 continue
             rhs = cu.strip_casts(vmf, vmf.kid(n, 1))
@@ -214,7 +261,7 @@ def r12_1_and_2(ctx):
                 ra = _vm_role(vmf, vmf.kid(rhs, 0))
                 rb = _vm_role(vmf, vmf.kid(rhs, 1))
                 if ra == 'L' and rb == 'R':
-                    ops.add(rhs['op'])
+                    ops.add(_op_token(vmf, rhs))
                 elif ra and rb:
                     ops.add('swapped:' + rhs['op'])
             elif rhs['k'] == 'un' and rhs['op'] in ARITH_UN:
@@ -251,7 +298,7 @@ def r12_1_and_2(ctx):
                     ra = _operand_role(g, g.kid(a, 0), local_roles)
                     rb = _operand_role(g, g.kid(a, 1), local_roles)
                     if ra == 'L' and rb == 'R':
-                        folds.append((a['op'], n))
+                        folds.append((_op_token(g, a), n))
                     elif ra and rb:
                         folds.append(('swapped:' + a['op'], n))
                 elif a['k'] == 'un' and a['op'] in ARITH_UN:
